@@ -46,6 +46,10 @@ var c02Kinds = []string{
 	"sig-notyet",      //
 	"enc-wrongname",   // only the encryption certificate is not valid for the configured name
 	"sig-wrongname",   //
+	"chain-honest",      // control: certificates issued by an intermediate CA whose certificate is sent along: must complete
+	"chain-enc-expired", // the same with only the encryption certificate out of date
+	"chain-enc-notyet",  //
+	"chain-sig-expired", //
 	"sig-otherkey",    // key-exchange signature made with a key that is not the signing certificate's
 	"sig-otherrandoms", // signature over other randoms (replayed)
 	"sig-otherparams", // signature over another certificate (ECC) / other ECDH parameters (ECDHE)
@@ -59,8 +63,10 @@ var c02Kinds = []string{
 // c02MustComplete: the table derived from the property statement.
 func c02MustComplete(kind string, verify bool) bool {
 	switch kind {
-	case "honest":
+	case "honest", "chain-honest":
 		return true
+	case "chain-enc-expired", "chain-enc-notyet", "chain-sig-expired":
+		return !verify
 	case "untrusted", "expired", "notyet", "wrongname", "wrongname-ip4", "wrongname-ip6", "mixedca",
 		"sig-untrusted", "enc-expired", "enc-notyet", "sig-expired", "sig-notyet", "enc-wrongname", "sig-wrongname":
 		return !verify // verification off waives chain, dates and name ...
@@ -98,6 +104,14 @@ func c02Run(c c02Case) (sig, msg string) {
 		ucfg.ServerName = "[2001:db8::1]"
 	case "mixedca":
 		encC = p.SrvEncB
+	case "chain-honest":
+		sigC, encC = p.ChainSig, p.ChainEnc
+	case "chain-enc-expired":
+		sigC, encC = p.ChainSig, p.ChainEncExpired
+	case "chain-enc-notyet":
+		sigC, encC = p.ChainSig, p.ChainEncNotYet
+	case "chain-sig-expired":
+		sigC, encC = p.ChainSigExpired, p.ChainEnc
 	case "sig-untrusted":
 		sigC = p.SrvSigB
 	case "enc-expired":
@@ -124,6 +138,9 @@ func c02Run(c c02Case) (sig, msg string) {
 	present := [][]byte{sigC.Certificate[0], encC.Certificate[0]}
 	if c.Kind == "single" {
 		present = present[:1]
+	}
+	if len(c.Kind) > 6 && c.Kind[:6] == "chain-" {
+		present = append(present, p.I.cert.Raw)
 	}
 	peer := func(pc *Conn) error {
 		sp := vfNewSrvPeer(pc)
@@ -350,7 +367,7 @@ func c02TimeHistory(suite uint16, steps []int) (sig, msg string) {
 }
 
 func TestVF_C02(t *testing.T) {
-	rec := vfRec("C02", "C02-impostor", "impostor catalogue (24 kinds incl. honest control) x 4 suites x verification on/off played by a scripted server-role peer, plus two-connection histories 'session recorded by a configuration that did not examine the certificates, offered by a verifying configuration sharing the cache' for 8 kinds of unacceptable certificates and the honest control; parametrised kinds also under rapid; oracle: must-fail / must-complete table from the property text; must-fail => Handshake error, HandshakeComplete false, Read returns no data although the impostor sends some; non-trivial = impostor other than the honest control; distinct = (kind, suite, mode, parameter)")
+	rec := vfRec("C02", "C02-impostor", "impostor catalogue (28 kinds incl. two honest controls; four of them with an intermediate CA certificate sent along) x 4 suites x verification on/off played by a scripted server-role peer, plus two-connection histories 'session recorded by a configuration that did not examine the certificates, offered by a verifying configuration sharing the cache' for 8 kinds of unacceptable certificates and the honest control; parametrised kinds also under rapid; oracle: must-fail / must-complete table from the property text; must-fail => Handshake error, HandshakeComplete false, Read returns no data although the impostor sends some; non-trivial = impostor other than the honest control; distinct = (kind, suite, mode, parameter)")
 	idx := 0
 	for _, kind := range c02Kinds {
 		for _, suite := range vfSuites {
@@ -368,7 +385,7 @@ func TestVF_C02(t *testing.T) {
 				if sig != "" {
 					rec.Violation(sig, c, "%s", msg)
 				}
-				rec.Eval(kind != "honest", c, "kind:"+kind, fmt.Sprintf("verify:%v", verify))
+				rec.Eval(kind != "honest" && kind != "chain-honest", c, "kind:"+kind, fmt.Sprintf("verify:%v", verify))
 			}
 		}
 	}
